@@ -1338,6 +1338,10 @@ impl Sim {
                 self.fail(t);
                 if exec {
                     for i in 0..n {
+                        if i % 1000 == 0 {
+                            // the step allowance is per call, not per storm
+                            libhaystack::verif_hooks::arm_abort(CALL_FUEL_BASE);
+                        }
                         unsafe {
                             if i % 2 == 0 {
                                 let r = haystack_value_make_str(std::ptr::null());
